@@ -92,6 +92,39 @@ Example C08_u0001_roundtrip :
 Proof. exact u0001_roundtrip. Qed.
 Print Assumptions C08_u0001_roundtrip.
 
+(* 8. lists that END IN A BLANK element — outside the domain of the property (statement 2), but what a packed
+   row model with an empty str field needs (C07, finding packed-model-blank-value-under-nonblank-default).
+   wfb_any = wfb without the condition on the last element.  Decided by the probed constant
+   join_keeps_blank_last (translator/tables_rowfix.py): on the repaired tree join_from_lists writes a trailing
+   separator after an empty last part and EVERY such list comes back; on the other tree [a, ""] is written a|
+   and read back as [a]. *)
+Theorem C08_blank_last_roundtrip_decided :
+  if join_keeps_blank_last
+  then forall v, wfb_any v = true -> exists txt, join_from_lists 0 v = Some txt /\ split_into_lists txt = trim v
+  else ~ (forall v, wfb_any v = true -> exists txt, join_from_lists 0 v = Some txt /\ split_into_lists txt = trim v).
+Proof. exact blank_last_roundtrip_decided. Qed.
+Print Assumptions C08_blank_last_roundtrip_decided.
+
+Theorem C08_blank_last_witness :
+  wfb_any w_blank_last = true /\ wfb w_blank_last = false
+  /\ join_from_lists 0 w_blank_last
+     = Some (if join_keeps_blank_last then [97; sep0; sep0] else [97; sep0])
+  /\ split_into_lists [97; sep0; sep0] = w_blank_last
+  /\ split_into_lists [97; sep0] = Lst [Str [97]].
+Proof. exact blank_last_witness. Qed.
+Print Assumptions C08_blank_last_witness.
+
+(* the domain of the round trip on the tree at hand contains the property's domain (so statement 2 is
+   unaffected by the repair) *)
+Theorem C08_list_roundtrip_tree : forall v,
+  wfb_tree v = true -> exists txt, join_from_lists 0 v = Some txt /\ split_into_lists txt = trim v.
+Proof. exact list_roundtrip_tree. Qed.
+Print Assumptions C08_list_roundtrip_tree.
+
+Theorem C08_wfb_in_wfb_tree : forall v, wfb v = true -> wfb_tree v = true.
+Proof. exact wfb_wfb_tree. Qed.
+Print Assumptions C08_wfb_in_wfb_tree.
+
 (* ---- 8. ONE CellParser object working through a history of calls (Cell/CellSession.v: cp_state = what the
    object holds after __init__, cp_op = the calls of the public API, cp_run = a history).
    The object's state after any history is the state it was created with, and every result is the
